@@ -41,6 +41,11 @@ func newMySQLUndoUpdateExecutor(sqlUndoLog undo.SQLUndoLog) *mySQLUndoUpdateExec
 }
 
 func (m *mySQLUndoUpdateExecutor) ExecuteOn(ctx context.Context, dbType types.DBType, conn *sql.Conn) error {
+	// a statement that matched no row left nothing to compensate
+	if m.sqlUndoLog.BeforeImage == nil || len(m.sqlUndoLog.BeforeImage.Rows) == 0 {
+		return nil
+	}
+
 	ok, err := m.baseExecutor.dataValidationAndGoOn(ctx, conn)
 	if err != nil {
 		return err
